@@ -154,6 +154,19 @@ func (m *Model) Fail(dir int, cls string) {
 	m.call("fail %s %s", sessName(dir), cls)
 }
 
+// FailWith queues the final chunk together with the network error (`NetEv.fail chunk cls`), the
+// way the endpoint's reads will see it: pieces that exceed its read buffer come first, alone.
+func (m *Model) FailWith(dir int, chunk []byte, cls string) {
+	if m == nil {
+		return
+	}
+	for len(chunk) > consumeReadSize {
+		m.Deliver(dir, chunk[:consumeReadSize], nil)
+		chunk = chunk[consumeReadSize:]
+	}
+	m.call("failc %s %s %s", sessName(dir), vlib.Hex(chunk), cls)
+}
+
 // Compare lets the model reader run until it blocks or fails and compares with the real
 // reader rd at the same point: concatenation of everything delivered, error class, blocked or
 // not (not the per-Read grouping). On an error the real Read hands over at most len(buf) of the
